@@ -213,9 +213,12 @@ pub fn relation(view: &View, world: &World, op: &Op, detached_by: &HashMap<H, K>
                     if ms.files.len() == 1 && file_state(op.b, Some(mi)) == "f=own" {
                         r.push_str(",last-file");
                     }
-                    if ms.nodes[0].local.len() != ms.files.len() {
-                        r.push_str(",root-restricted");
-                    }
+                }
+            }
+            if let Some(mi) = mi {
+                let ms = &view.models[mi].1;
+                if !ms.files.is_empty() && ms.nodes[0].local.len() != ms.files.len() {
+                    r.push_str(",root-restricted");
                 }
             }
             return r;
